@@ -42,6 +42,12 @@ enum Kind {
     Full,
     Cross,
     Comma,
+    /// `SELECT l.* FROM l WHERE EXISTS (SELECT r.k FROM r WHERE r.k = l.k)` (planned as HashSemiJoin)
+    Semi,
+    /// `… WHERE l.k IN (SELECT r.k FROM r)` (HashSemiJoin)
+    SemiIn,
+    /// `… WHERE NOT EXISTS (SELECT r.k FROM r WHERE r.k = l.k)` (HashAntiJoin); NOT IN belongs to C18
+    Anti,
 }
 const KINDS_ON: [Kind; 4] = [Kind::Inner, Kind::Left, Kind::Right, Kind::Full];
 const KINDS5: [Kind; 5] = [Kind::Inner, Kind::Left, Kind::Right, Kind::Full, Kind::Cross];
@@ -54,10 +60,13 @@ impl Kind {
             Kind::Full => "FULL",
             Kind::Cross => "CROSS",
             Kind::Comma => "COMMA",
+            Kind::Semi => "SEMI(exists)",
+            Kind::SemiIn => "SEMI(in)",
+            Kind::Anti => "ANTI(not-exists)",
         }
     }
     fn parse(s: &str) -> Option<Kind> {
-        [Kind::Inner, Kind::Left, Kind::Right, Kind::Full, Kind::Cross, Kind::Comma].into_iter().find(|k| k.name() == s)
+        [Kind::Inner, Kind::Left, Kind::Right, Kind::Full, Kind::Cross, Kind::Comma, Kind::Semi, Kind::SemiIn, Kind::Anti].into_iter().find(|k| k.name() == s)
     }
     fn jk(self) -> JoinKind {
         match self {
@@ -65,11 +74,14 @@ impl Kind {
             Kind::Left => JoinKind::Left,
             Kind::Right => JoinKind::Right,
             Kind::Full => JoinKind::Full,
-            Kind::Cross | Kind::Comma => JoinKind::Cross,
+            Kind::Cross | Kind::Comma | Kind::Semi | Kind::SemiIn | Kind::Anti => JoinKind::Cross,
         }
     }
     fn has_on(self) -> bool {
-        !matches!(self, Kind::Cross | Kind::Comma)
+        !matches!(self, Kind::Cross | Kind::Comma | Kind::Semi | Kind::SemiIn | Kind::Anti)
+    }
+    fn is_semi(self) -> bool {
+        matches!(self, Kind::Semi | Kind::SemiIn | Kind::Anti)
     }
 }
 
@@ -82,8 +94,12 @@ enum On {
     Lt,
     EqConjR,
     EqConjL,
+    /// `l.k <= r.k`
+    Le,
+    /// `(l.k = r.k) OR (l.x > 100)` (second disjunct never true: an equi-join that cannot be planned as a hash join)
+    EqOr,
 }
-const ONS: [On; 5] = [On::Eq, On::EqRev, On::Lt, On::EqConjR, On::EqConjL];
+const ONS: [On; 7] = [On::Eq, On::EqRev, On::Lt, On::Le, On::EqOr, On::EqConjR, On::EqConjL];
 impl On {
     fn name(self) -> &'static str {
         match self {
@@ -93,6 +109,8 @@ impl On {
             On::Lt => "lt",
             On::EqConjR => "eq+conj(r)",
             On::EqConjL => "eq+conj(l)",
+            On::Le => "le",
+            On::EqOr => "eq-or-false",
         }
     }
     /// name used in signatures: the operand order of the equality and the side of the extra conjunct
@@ -103,10 +121,12 @@ impl On {
             On::Eq | On::EqRev => "eq",
             On::Lt => "lt",
             On::EqConjR | On::EqConjL => "eq+conj",
+            On::Le => "le",
+            On::EqOr => "eq-or-false",
         }
     }
     fn parse(s: &str) -> Option<On> {
-        [On::None, On::Eq, On::EqRev, On::Lt, On::EqConjR, On::EqConjL].into_iter().find(|k| k.name() == s)
+        [On::None, On::Eq, On::EqRev, On::Lt, On::EqConjR, On::EqConjL, On::Le, On::EqOr].into_iter().find(|k| k.name() == s)
     }
 }
 /// ON shape of the second join ((l ⋈ r) ⋈ m)
@@ -276,6 +296,17 @@ const ZB: i64 = 30;
 
 /// Build the model query and the SQL text sent to TurDB.  `pad_cols`: also select the TEXT payload.
 fn build_query(s: &QSpec, pad_cols: bool, xb: i64, yb: i64) -> (Query, String) {
+    if s.kinds[0].is_semi() {
+        let sub_items = vec![SelectItem::expr(ex::qcol("r", "k"))];
+        let pred = match s.kinds[0] {
+            Kind::SemiIn => ex::in_sub(ex::qcol("l", "k"), Query::select(sub_items, From::table("r"))),
+            Kind::Semi => ex::exists(Query::select(sub_items, From::table("r")).where_(ex::eq(ex::qcol("r", "k"), ex::qcol("l", "k")))),
+            _ => ex::not_exists(Query::select(sub_items, From::table("r")).where_(ex::eq(ex::qcol("r", "k"), ex::qcol("l", "k")))),
+        };
+        let q = Query::select(vec![SelectItem::expr(ex::qcol("l", "k")), SelectItem::expr(ex::qcol("l", "x"))], From::table("l")).where_(pred);
+        let sql = q.to_sql();
+        return (q, sql);
+    }
     let (lq, rq, rt, ry) = match s.form {
         Form::Cols | Form::Star => ("l", "r", "r", "y"),
         Form::Alias | Form::StarAlias => ("a", "b", "r", "y"),
@@ -297,6 +328,8 @@ fn build_query(s: &QSpec, pad_cols: bool, xb: i64, yb: i64) -> (Query, String) {
         (_, On::Lt) => Some(ex::lt(lk(), rk())),
         (_, On::EqConjR) => Some(ex::and(ex::eq(lk(), rk()), ex::gt(rv(), ex::int(rbase)))),
         (_, On::EqConjL) => Some(ex::and(ex::eq(lk(), rk()), ex::gt(lx(), ex::int(xb)))),
+        (_, On::Le) => Some(ex::le(lk(), rk())),
+        (_, On::EqOr) => Some(ex::or(ex::eq(lk(), rk()), ex::gt(lx(), ex::int(xb + 1_000_000)))),
     };
     let mut from = lf.join(k0.jk(), rf, on);
     if s.kinds.len() == 2 {
@@ -354,8 +387,9 @@ fn build_query(s: &QSpec, pad_cols: bool, xb: i64, yb: i64) -> (Query, String) {
 
 /// 2-way specs, simplest first (bases before the queries derived from them)
 fn specs_two(thorough: bool) -> Vec<QSpec> {
-    // quick: 4 ON shapes x 6 WHERE shapes; thorough adds the reversed equality and the key-equality WHEREs
+    // quick: 6 ON shapes without WHERE, {eq, lt, eq+conj(r)} x 6 WHERE shapes; thorough: 7 ON shapes x 8 WHERE shapes
     let ons: Vec<On> = ONS.iter().copied().filter(|o| thorough || *o != On::EqRev).collect();
+    let ons_where: Vec<On> = ons.iter().copied().filter(|o| thorough || matches!(o, On::Eq | On::Lt | On::EqConjR)).collect();
     let whs: Vec<Wh> = WHS2.iter().copied().filter(|w| thorough || !matches!(w, Wh::LKey | Wh::RKey)).collect();
     let mut v = vec![];
     // explicit columns, no WHERE
@@ -364,12 +398,12 @@ fn specs_two(thorough: bool) -> Vec<QSpec> {
             v.push(QSpec::two(k, on, Wh::None, Form::Cols));
         }
     }
-    for k in [Kind::Cross, Kind::Comma] {
+    for k in [Kind::Cross, Kind::Comma, Kind::Semi, Kind::SemiIn, Kind::Anti] {
         v.push(QSpec::two(k, On::None, Wh::None, Form::Cols));
     }
     // WHERE on either side
     for k in KINDS_ON {
-        for on in ons.iter().copied() {
+        for on in ons_where.iter().copied() {
             for wh in &whs[1..] {
                 v.push(QSpec::two(k, on, *wh, Form::Cols));
             }
@@ -1104,6 +1138,9 @@ fn pass_chain(ctx: &Ctx, rep: &mut Reporter, case_no: &mut u64) {
     let tables = multisets_upto(&DOM3, if thorough { 3 } else { 2 });
     let specs = specs_chain();
     let variants = [Variant::Plain, Variant::Idx, Variant::Pk];
+    // quick: one budget per class; thorough: all six
+    let budgets: &[Option<u64>] = if thorough { &BUDGETS } else { &[None, Some(4096), Some(0)] };
+    rep.bound("chain.budgets", json!(budgets.iter().map(|b| b.map(|x| x.to_string()).unwrap_or("default".into())).collect::<Vec<_>>()));
     rep.bound("chain.key_domain", json!("{NULL,1,2}"));
     rep.bound("chain.tables_per_side", json!(tables.len()));
     rep.bound("chain.max_rows_per_table", json!(if thorough { 3 } else { 2 }));
@@ -1127,7 +1164,7 @@ fn pass_chain(ctx: &Ctx, rep: &mut Reporter, case_no: &mut u64) {
                         continue;
                     }
                     rep.begin_case(&case_json("chain", &t, v, &specs[0], None, "model", "").to_string());
-                    run_db("chain", ctx, rep, &t, v, &prep, &BUDGETS, false);
+                    run_db("chain", ctx, rep, &t, v, &prep, budgets, false);
                     rep.count(&format!("chain_dbs[{}]", v.name()), 1);
                 }
             }
@@ -1189,6 +1226,303 @@ fn pass_pad(ctx: &Ctx, rep: &mut Reporter, case_no: &mut u64) {
 }
 
 // ---------------------------------------------------------------------------
+// pass op: the join operators of src/sql/executor.rs driven directly
+// ---------------------------------------------------------------------------
+mod oppass {
+    use super::*;
+    use turdb::sql::ast::{JoinType, Statement};
+    use turdb::sql::builder::ExecutorBuilder;
+    use turdb::sql::context::ExecutionContext;
+    use turdb::sql::executor::{DynamicExecutor, Executor, MaterializedRowSource, TableScanExecutor};
+    use turdb::sql::state::StreamingHashJoinState;
+    use turdb::types::Value as TValue;
+    use turdb::OwnedValue;
+
+    #[derive(Clone, Debug, PartialEq, Eq)]
+    pub struct OpSpec {
+        /// "NestedLoopJoin" | "GraceHashJoin" | "StreamingHashJoin"
+        pub op: String,
+        pub kind: Kind,
+        pub on: On,
+        /// GraceHashJoin only: spill directory in use with this memory budget (bytes)
+        pub spill: Option<usize>,
+    }
+    impl OpSpec {
+        pub fn to_json(&self) -> Value {
+            json!({"op": self.op, "kind": self.kind.name(), "on": self.on.name(), "spill": self.spill})
+        }
+        pub fn from_json(v: &Value) -> Option<OpSpec> {
+            Some(OpSpec { op: v.get("op")?.as_str()?.to_string(), kind: Kind::parse(v.get("kind")?.as_str()?)?, on: On::parse(v.get("on")?.as_str()?)?, spill: v.get("spill").and_then(|x| x.as_u64()).map(|x| x as usize) })
+        }
+        pub fn spill_class(&self) -> &'static str {
+            match self.spill {
+                None => "in-memory",
+                Some(b) if b <= 256 => "spill-tiny",
+                Some(_) => "spill-small",
+            }
+        }
+        pub fn qspec(&self) -> QSpec {
+            QSpec::two(self.kind, self.on, Wh::None, Form::Cols)
+        }
+    }
+    pub fn all_specs() -> Vec<OpSpec> {
+        let mut v = vec![];
+        for k in KINDS_ON {
+            for on in [On::Eq, On::Lt, On::Le, On::EqConjR] {
+                v.push(OpSpec { op: "NestedLoopJoin".into(), kind: k, on, spill: None });
+            }
+        }
+        v.push(OpSpec { op: "NestedLoopJoin".into(), kind: Kind::Cross, on: On::None, spill: None });
+        for k in KINDS_ON {
+            v.push(OpSpec { op: "StreamingHashJoin".into(), kind: k, on: On::Eq, spill: None });
+            for spill in [None, Some(65536), Some(4096), Some(256), Some(1), Some(0)] {
+                v.push(OpSpec { op: "GraceHashJoin".into(), kind: k, on: On::Eq, spill });
+            }
+        }
+        v
+    }
+
+    fn owned(rows: &[Row]) -> Vec<Vec<OwnedValue>> {
+        rows.iter()
+            .map(|r| {
+                r.iter()
+                    .map(|v| match v {
+                        V::Null => OwnedValue::Null,
+                        V::Int(i) => OwnedValue::Int(*i),
+                        V::Text(s) => OwnedValue::Text(s.clone()),
+                        o => panic!("unexpected value {o:?}"),
+                    })
+                    .collect()
+            })
+            .collect()
+    }
+    fn back(v: &TValue) -> V {
+        match v {
+            TValue::Null => V::Null,
+            TValue::Int(i) => V::Int(*i),
+            TValue::Float(f) => V::Float(*f),
+            TValue::Text(s) => V::Text(s.to_string()),
+            TValue::Blob(b) => V::Blob(b.to_vec()),
+            o => V::Other(format!("{o:?}")),
+        }
+    }
+    fn jt(k: Kind) -> JoinType {
+        match k {
+            Kind::Inner => JoinType::Inner,
+            Kind::Left => JoinType::Left,
+            Kind::Right => JoinType::Right,
+            Kind::Full => JoinType::Full,
+            _ => JoinType::Cross,
+        }
+    }
+    fn count_files(dir: &Path) -> usize {
+        let mut n = 0;
+        if let Ok(rd) = std::fs::read_dir(dir) {
+            for e in rd.flatten() {
+                let p = e.path();
+                if p.is_dir() {
+                    n += count_files(&p);
+                } else {
+                    n += 1;
+                }
+            }
+        }
+        n
+    }
+
+    /// Run one operator over materialized inputs.  Ok((rows, spill files seen after open(), files left after close()))
+    pub fn run_op(spec: &OpSpec, t: &Tabs, spill_root: &Path) -> Result<(Vec<Row>, usize, usize), String> {
+        let lrows = t.rows('l');
+        let rrows = t.rows('r');
+        let lw = if t.pad > 0 { 3 } else { 2 };
+        let rw = lw;
+        let spill_dir = spill_root.join("spill");
+        let _ = std::fs::remove_dir_all(&spill_dir);
+        let spec = spec.clone();
+        let res = vcore::catch(move || -> Result<(Vec<Row>, usize, usize), String> {
+            let arena = Default::default(); // bumpalo::Bump (the type is fixed by ExecutionContext::new)
+            let ectx = ExecutionContext::new(&arena);
+            let b = ExecutorBuilder::new(&ectx);
+            let left = DynamicExecutor::TableScan(TableScanExecutor::new(MaterializedRowSource::new(owned(&lrows)), &arena));
+            let right = DynamicExecutor::TableScan(TableScanExecutor::new(MaterializedRowSource::new(owned(&rrows)), &arena));
+            // column map of the combined row, as the SQL layer builds it (lower-case, qualified and bare names)
+            let mut cmap: Vec<(String, usize)> = vec![("l.k".into(), 0), ("l.x".into(), 1)];
+            if lw == 3 {
+                cmap.push(("l.p".into(), 2));
+            }
+            cmap.push(("r.k".into(), lw));
+            cmap.push(("r.y".into(), lw + 1));
+            if rw == 3 {
+                cmap.push(("r.p".into(), lw + 2));
+            }
+            let cond_sql = match spec.on {
+                On::None => None,
+                On::Eq => Some("l.k = r.k".to_string()),
+                On::EqRev => Some("r.k = l.k".to_string()),
+                On::Lt => Some("l.k < r.k".to_string()),
+                On::EqConjR => Some(format!("l.k = r.k AND r.y > {}", t.yb)),
+                On::EqConjL => Some(format!("l.k = r.k AND l.x > {}", t.xb)),
+                On::Le => Some("l.k <= r.k".to_string()),
+                On::EqOr => Some(format!("l.k = r.k OR l.x > {}", t.xb + 1_000_000)),
+            };
+            let stmt_sql = cond_sql.map(|c| format!("SELECT 1 FROM l WHERE {c}"));
+            let cond = match &stmt_sql {
+                None => None,
+                Some(sql) => {
+                    let mut p = turdb::sql::Parser::new(sql, &arena);
+                    match p.parse_statement().map_err(|e| format!("harness: cannot parse {sql}: {e:#}"))? {
+                        Statement::Select(sel) => sel.where_clause,
+                        _ => None,
+                    }
+                }
+            };
+            let mut exec = match spec.op.as_str() {
+                "NestedLoopJoin" => DynamicExecutor::NestedLoopJoin(b.build_nested_loop_join(left, right, cond, &cmap, jt(spec.kind), lw, rw)),
+                "GraceHashJoin" => DynamicExecutor::GraceHashJoin(Box::new(b.build_grace_hash_join(left, right, vec![0], vec![0], 16, jt(spec.kind), lw, rw, spec.spill.map(|_| spill_dir.clone()), spec.spill.unwrap_or(usize::MAX / 2), 7))),
+                "StreamingHashJoin" => DynamicExecutor::StreamingHashJoin(StreamingHashJoinState {
+                    build: Box::new(left),
+                    probe: Box::new(right),
+                    build_key_indices: [0usize].into_iter().collect(),
+                    probe_key_indices: [0usize].into_iter().collect(),
+                    arena: &arena,
+                    hash_table: Default::default(),
+                    build_rows: Vec::new(),
+                    current_probe_row: None,
+                    current_matches: Default::default(),
+                    current_match_idx: 0,
+                    join_type: jt(spec.kind),
+                    probe_row_matched: false,
+                    build_matched: Vec::new(),
+                    emitting_unmatched_build: false,
+                    unmatched_build_idx: 0,
+                    build_col_count: lw,
+                    probe_col_count: rw,
+                    built: false,
+                    swapped: false,
+                    memory_budget: None,
+                    last_reported_bytes: 0,
+                }),
+                o => return Err(format!("harness: unknown operator {o}")),
+            };
+            exec.open().map_err(|e| format!("open: {e:#}"))?;
+            let files_open = count_files(&spill_dir);
+            let mut out = vec![];
+            while let Some(row) = exec.next().map_err(|e| format!("next: {e:#}"))? {
+                out.push(row.values.iter().map(back).collect::<Row>());
+                if out.len() > 1_000_000 {
+                    return Err("more than 1e6 rows".into());
+                }
+            }
+            exec.close().map_err(|e| format!("close: {e:#}"))?;
+            drop(exec);
+            let files_left = count_files(&spill_dir);
+            Ok((out, files_open, files_left))
+        });
+        match res {
+            Ok(r) => r,
+            Err(p) => Err(format!("PANIC {p}")),
+        }
+    }
+
+    pub fn signature(spec: &OpSpec, failure: &str) -> String {
+        format!("{PROP}/op:{}/{}/{}/{}/{}", spec.kind.name(), spec.on.sig(), spec.op, spec.spill_class(), failure)
+    }
+
+    /// judge one operator run; returns true when it conforms
+    pub fn check(rep: &mut Reporter, t: &Tabs, spec: &OpSpec, expected: &[Row], spill_root: &Path) -> bool {
+        let r = run_op(spec, t, spill_root);
+        let case = || json!({"pass": "op", "tabs": t.to_json(), "op": spec.to_json()});
+        let res = match r {
+            Ok((rows, files_open, files_left)) => {
+                rep.count(&format!("opexec[{}]", spec.op), 1);
+                if spec.spill.is_some() {
+                    rep.count("op_spill_runs", 1);
+                    rep.count("op_spill_files_seen", files_open as u64);
+                    if files_open > 0 {
+                        rep.count(&format!("op_spill_runs_with_files[{}]", spec.spill_class()), 1);
+                    }
+                    if files_left > 0 {
+                        rep.count("op_spill_files_left_after_close", files_left as u64);
+                    }
+                }
+                Res::Rows(rows)
+            }
+            Err(e) if e.starts_with("PANIC") => Res::Panic(e),
+            Err(e) => Res::Err(e),
+        };
+        match judge(expected, &res) {
+            None => {
+                rep.count("op_conforming", 1);
+                true
+            }
+            Some((f, exp, obs)) => {
+                rep.violation(PROP, "op-model", &signature(spec, &f), case, &exp, &obs);
+                false
+            }
+        }
+    }
+}
+
+fn pass_op(ctx: &Ctx, rep: &mut Reporter, case_no: &mut u64) {
+    let tables = multisets_upto(&DOM4, 3);
+    let specs = oppass::all_specs();
+    rep.bound("op.operators", json!(["NestedLoopJoinState x {INNER,LEFT,RIGHT,FULL} x {eq,lt,eq+conj} + CROSS", "StreamingHashJoinState x 4 kinds (swapped=false)", "GraceHashJoinState x 4 kinds x {in-memory, spill dir with budget 65536,4096,256,1,0}"]));
+    rep.bound("op.table_pairs", json!(tables.len() * tables.len()));
+    rep.expect_nonzero("op_spill_files_seen");
+    rep.expect_nonzero("op_conforming");
+    for l in &tables {
+        for r in &tables {
+            let i = *case_no;
+            *case_no += 1;
+            if !ctx.mine(i) {
+                continue;
+            }
+            if ctx.expired() {
+                rep.capped("op pass: deadline");
+                return;
+            }
+            let t = Tabs::small(l, r, None);
+            let qs: Vec<QSpec> = specs.iter().map(|s| s.qspec()).collect();
+            let prep = prepare(&t, &qs, false);
+            let mut failed: BTreeSet<(String, Kind, On)> = BTreeSet::new();
+            for (s, p) in specs.iter().zip(prep.iter()) {
+                // a spilling run builds on the in-memory run of the same operator and kind
+                if s.spill.is_some() && failed.contains(&(s.op.clone(), s.kind, s.on)) {
+                    rep.pruned(1);
+                    continue;
+                }
+                rep.bulk(1, (!p.expected.is_empty()) as u64);
+                if !oppass::check(rep, &t, s, &p.expected, &ctx.scratch) {
+                    failed.insert((s.op.clone(), s.kind, s.on));
+                }
+            }
+        }
+    }
+    // padded 300-row inputs: GraceHashJoin must really write spill files under the small budgets
+    let t = pad_tabs(300);
+    for s in specs.iter().filter(|s| s.op == "GraceHashJoin") {
+        let i = *case_no;
+        *case_no += 1;
+        if !ctx.mine(i) {
+            continue;
+        }
+        let prep = prepare(&t, &[s.qspec()], true);
+        rep.bulk(1, 1);
+        rep.count("op_pad_runs", 1);
+        // the operator returns all columns of both inputs: the expected bag of the padded query selects them all as well
+        oppass::check(rep, &t, s, &prep[0].expected, &ctx.scratch);
+    }
+}
+
+fn replay_op_case(ctx: &Ctx, case: &Value, rep: &mut Reporter) {
+    let t = Tabs::from_json(case.get("tabs").expect("tabs")).expect("tabs parse");
+    let s = oppass::OpSpec::from_json(case.get("op").expect("op")).expect("op parse");
+    let prep = prepare(&t, &[s.qspec()], true);
+    rep.bulk(1, 1);
+    oppass::check(rep, &t, &s, &prep[0].expected, &ctx.scratch);
+}
+
+// ---------------------------------------------------------------------------
 struct C17;
 impl Check for C17 {
     fn specs(&self) -> Vec<Spec> {
@@ -1212,7 +1546,7 @@ impl Check for C17 {
         let tmp = ctx.scratch.join("tmp");
         std::fs::create_dir_all(&tmp).ok();
         std::env::set_var("TMPDIR", &tmp);
-        for c in ["op[StreamingHashJoin]", "op[GraceHashJoin]", "op[NestedLoopJoin]", "op[IndexNestedLoopJoin]", "conforming", "conforming_with_null_in_result", "budget_comparisons", "variant_comparisons", "exec[tiny]", "exec[small]", "exec[default]", "pad_queries_watched"] {
+        for c in ["op[StreamingHashJoin]", "op[GraceHashJoin]", "op[NestedLoopJoin]", "op[IndexNestedLoopJoin]", "op[HashSemiJoin]", "op[HashAntiJoin]", "conforming", "conforming_with_null_in_result", "budget_comparisons", "variant_comparisons", "exec[tiny]", "exec[small]", "exec[default]", "pad_queries_watched"] {
             rep.expect_nonzero(c);
         }
         let only = ctx.opt("pass").map(|s| s.to_string());
@@ -1224,6 +1558,9 @@ impl Check for C17 {
         if want("chain") {
             pass_chain(ctx, rep, &mut case_no);
         }
+        if want("op") {
+            pass_op(ctx, rep, &mut case_no);
+        }
         if want("pairs") {
             pass_pairs(ctx, rep, &mut case_no);
         }
@@ -1233,7 +1570,11 @@ impl Check for C17 {
         let tmp = ctx.scratch.join("tmp");
         std::fs::create_dir_all(&tmp).ok();
         std::env::set_var("TMPDIR", &tmp);
-        replay_sql_case(ctx, case, rep);
+        if case.get("pass").and_then(|v| v.as_str()) == Some("op") {
+            replay_op_case(ctx, case, rep);
+        } else {
+            replay_sql_case(ctx, case, rep);
+        }
     }
 }
 
